@@ -34,6 +34,7 @@ type l2Params struct {
 	SyncAdd     bool
 	PassThrough bool
 	NRandom     int
+	HTTPDir     bool // directory httpcache, direct mode (tamper scenario)
 }
 
 func (p l2Params) String() string {
@@ -71,6 +72,10 @@ func newL2(r *vf.Run, bc *blobCase, a *alteration, p l2Params) (*l2Setup, error)
 	}
 	cfg := config.Config{}
 	cfg.HTTPCacheType = "memory"
+	if p.HTTPDir {
+		cfg.HTTPCacheType = ""
+		cfg.DirectoryCacheConfig.Direct = true // no in-memory copy in front of the files
+	}
 	if p.FSCache == "memory" {
 		cfg.FSCacheType = "memory"
 	}
@@ -212,6 +217,10 @@ func runL2Case(r *vf.Run, bc *blobCase, a *alteration, p l2Params, caseNo uint64
 	cls := a.Class
 	desc := fmt.Sprintf("L2 %s | %s | %s", bc, a.Desc, p)
 	replay := map[string]any{"level": "L2", "blob": bc.String(), "blob_index": bc.idx, "alteration": a.Desc, "params": p.String(), "case": caseNo, "tar": gen0(bc), "affected": sortedChunkKeys(a.Affected)}
+	if knownFatal(a) {
+		r.Inconclusive("case skipped: zstd footer announces a TOC far larger than the blob (known process-fatal allocation, C04 territory)")
+		return
+	}
 	s, err := newL2(r, bc, a, p)
 	if err != nil {
 		r.Inconclusive("L2 setup: " + firstLine(err.Error()))
@@ -318,7 +327,7 @@ func stageL2(r *vf.Run) {
 	if len(r.ChildArgs) >= 3 {
 		jr = openJournal(r.ChildArgs[2])
 	}
-	nBlobs := r.N(4, 36)
+	nBlobs := r.N(4, 24)
 	classes := l2Classes
 	if r.Thorough() {
 		classes = append([]string{"none"}, classList...)
@@ -367,6 +376,12 @@ func stageL2(r *vf.Run) {
 			if ci%5 == 1 {
 				r.Sample(map[string]any{"level": "L2", "blob": bc.String(), "alteration": a.Desc, "params": p.String()})
 			}
+		}
+		tc := uint64(bi)<<32 | 0xFFFE<<16
+		if cid := fmt.Sprintf("%x", tc); !jr.poison[cid] {
+			jr.begin(cid)
+			r.Watchdog(3*time.Minute, "L2 httpcache tamper case", func() { runL2TamperCase(r, bc, []string{"memory", "db"}[bi%2], tc) })
+			jr.end(cid)
 		}
 		r.FlushPartial()
 		jr.done(fmt.Sprint(bi))
@@ -528,7 +543,7 @@ func runHistCase(r *vf.Run, bc *blobCase, a *alteration, store string, h []strin
 func stageHist(r *vf.Run) {
 	hs := histories()
 	r.Set("hist_histories", len(hs))
-	nBlobs := r.N(1, 3)
+	nBlobs := r.N(1, 2)
 	n := uint64(0)
 	for bi := 0; bi < nBlobs; bi++ {
 		bc, err := buildBlobMode(r, 2000+bi, compressionFor(bi), true)
@@ -596,7 +611,7 @@ func runL2GateCase(r *vf.Run, bc *blobCase, a *alteration, store string, script 
 	}()
 	go func() {
 		defer wg.Done()
-		g.waitNext(firstV(script), gateTimeout)
+		startVerifyWhenScriptAllows(g, script)
 		verr = l.Verify(digest.Digest(a.Pin))
 	}()
 	wg.Wait()
